@@ -154,3 +154,43 @@ func verifC01Bool(s *BoolSchema, data any) {
 		panic("C01: SerializeType disagrees with Serialize")
 	}
 }
+
+// C01 for integer enums.
+func verifC01IntEnum(s *IntEnumSchema, data any) {
+	r, err := s.Unserialize(data)
+	if err != nil {
+		return
+	}
+	if s.Validate(r) != nil {
+		panic("C01: unserialized value does not validate")
+	}
+	ser, err := s.Serialize(r)
+	if err != nil {
+		panic("C01: unserialized value does not serialize")
+	}
+	r2, err := s.Unserialize(ser)
+	if err != nil || r2 != r {
+		panic("C01: Unserialize after Serialize is not the identity")
+	}
+	ser2, err := s.Serialize(r2)
+	if err != nil || ser2 != ser {
+		panic("C01: Serialize is not idempotent on wire forms")
+	}
+	if w := ser.(int64); w >= 0 {
+		r3, err := s.Unserialize(uint64(w))
+		if err != nil || r3 != r {
+			panic("C01: value changes over the CBOR wire (uint64)")
+		}
+	}
+	tr, err := s.UnserializeType(data)
+	if err != nil || any(tr) != r {
+		panic("C01: UnserializeType disagrees with Unserialize")
+	}
+	if s.ValidateType(tr) != nil {
+		panic("C01: ValidateType disagrees with Validate")
+	}
+	ts, err := s.SerializeType(tr)
+	if err != nil || ts != ser {
+		panic("C01: SerializeType disagrees with Serialize")
+	}
+}
